@@ -21,7 +21,7 @@ warnings.simplefilter('ignore')
 NONE = -999999
 TAILS = [(), (2,), (3, 2), (1,), (2, 1, 2), (1, 1)]
 LAYOUTS = ['C', 'F', 'strided', 'negstride', 'transposed', 'broadcast']
-UNSUPPORTED = ['bool', 'str', 'object', 'datetime', 'structured']
+UNSUPPORTED = ['bool', 'str', 'object', 'datetime', 'structured', 'timedelta', 'longdouble', 'clongdouble', 'bytes']
 
 
 def base_array(numtype, n, tail, valset):
@@ -69,16 +69,24 @@ def unsupported_input(kind, form, n):
         arr = np.array([None, {}] * n, dtype=object)[:n]
     elif kind == 'datetime':
         arr = np.array(['2020-01-01'] * n, dtype='datetime64[D]')
+    elif kind == 'timedelta':
+        arr = np.arange(n).astype('timedelta64[s]')
+    elif kind in ('longdouble', 'clongdouble'):
+        arr = np.arange(n).astype(np.longdouble if kind == 'longdouble' else np.clongdouble)
+        if arr.dtype.name in ('float64', 'complex128'):
+            return None
+    elif kind == 'bytes':
+        arr = np.array([b'ab', b'c'] * n)[:n]
     else:
         arr = np.zeros(n, dtype=[('a', 'i4'), ('b', 'f8')])
     if form in ('list', 'tuple'):
-        if kind in ('datetime', 'structured', 'object'):
+        if kind in ('datetime', 'structured', 'object', 'timedelta', 'longdouble', 'clongdouble'):
             return None
         x = arr.tolist()
         return x if form == 'list' else tuple(x)
     if form == 'scalar':
-        if kind in ('datetime', 'structured', 'object'):
-            return arr[0] if kind == 'datetime' else None
+        if kind in ('datetime', 'structured', 'object', 'timedelta', 'longdouble', 'clongdouble'):
+            return arr[0] if kind in ('datetime', 'timedelta', 'longdouble', 'clongdouble') else None
         return arr[0].item()
     if form == 'generator':
         return (arr[i:i + 1] for i in range(n))
@@ -118,7 +126,10 @@ def _job(args):
                             continue
                         if form in ('fill', 'fillfunc'):
                             dtb = {'bool': bool, 'str': 'U3', 'object': object, 'datetime': 'datetime64[D]',
-                                   'structured': [('a', 'i4')]}[kind]
+                                   'structured': [('a', 'i4')], 'timedelta': 'timedelta64[s]', 'longdouble': np.longdouble,
+                                   'clongdouble': np.clongdouble, 'bytes': 'S3'}[kind]
+                            if np.dtype(dtb).name in ('float64', 'complex128'):
+                                continue        # (platforms where long double is double)
                             call = lambda: darr.create_array(path, shape=(max(n, 1),), dtype=dtb, fill=1, chunklen=c)
                         else:
                             x = unsupported_input(kind, form, n)
